@@ -156,7 +156,9 @@ func (x *runner) judge(sc *Scenario, idx int, obs *lifeObs, pre []string, nextH 
 		if sum[6] != "-" && l.CrashAt < 0 {
 			x.c.Hist["hypothesis:plain-run(good_run)="+sum[6]]++
 		}
-		x.c.Hist["hypothesis:life_disc="+sum[7]]++
+		if sum[7] != "-" {
+			x.c.Hist["hypothesis:life_disc="+sum[7]]++
+		}
 	}
 	x.c.Hist["life:"+phase]++
 	x.c.Hist["trigger_sync_hidden"] += obs.TrigSync
